@@ -220,30 +220,39 @@ func checkC01(c *Ctx) {
 	if ab == nil {
 		c.Missing("transport-no-recoding", construct)
 	} else {
-		var transport *ssa.Alloc
 		var dc ssa.Value
 		var dcAt ssa.Instruction
-		instrsOf(ab, func(in ssa.Instruction) {
-			if k, st := storeKey(in); k == "http.Transport.DisableCompression" {
-				dc, dcAt = st.Val, st
-				if a, ok := st.Addr.(*ssa.FieldAddr).X.(*ssa.Alloc); ok {
-					transport = a
-				}
-			}
-		})
 		assigned := false
+		var allocs []*ssa.Alloc
 		instrsOf(ab, func(in ssa.Instruction) {
 			if k, st := storeKey(in); k == "httputil.ReverseProxy.Transport" {
-				if transport != nil && stripConv(st.Val) == ssa.Value(transport) {
-					assigned = true
-				}
-				if transport == nil {
-					if a, ok := stripConv(st.Val).(*ssa.Alloc); ok {
-						transport = a
-					}
-				}
+				c.transportAllocs(st.Val, 0, &allocs)
 			}
 		})
+		for _, tr := range allocs {
+			assigned = true
+			found := false
+			instrsOf(tr.Parent(), func(in ssa.Instruction) {
+				if k, st := storeKey(in); k == "http.Transport.DisableCompression" {
+					if st.Addr.(*ssa.FieldAddr).X == ssa.Value(tr) {
+						dc, dcAt = st.Val, st
+						found = true
+					}
+				}
+			})
+			if !found {
+				dc = nil
+				break
+			}
+		}
+		if !assigned {
+			// nothing resolvable is installed: fall back to any DisableCompression store in AddBackend
+			instrsOf(ab, func(in ssa.Instruction) {
+				if k, st := storeKey(in); k == "http.Transport.DisableCompression" {
+					dc, dcAt = st.Val, st
+				}
+			})
+		}
 		b, isConst := false, false
 		if dc != nil {
 			b, isConst = constBool(dc)
@@ -512,33 +521,7 @@ func checkC05(c *Ctx) {
 				wv = st.Val
 			}
 		})
-		ok, detail := false, "Backend.Weight is not set from the configured weight"
-		if ph, isPhi := wv.(*ssa.Phi); isPhi {
-			hasOne, hasCfg := false, false
-			for _, e := range ph.Edges {
-				if k, isK := constInt(e); isK && k == 1 {
-					hasOne = true
-				}
-				if p.Desc(e, nil) == "fld:config.BackendConfig.Weight" {
-					hasCfg = true
-				}
-			}
-			guard := false
-			instrsOf(ab, func(in ssa.Instruction) {
-				if ifi, isIf := in.(*ssa.If); isIf {
-					r := p.RelOf(ifi.Cond, true, nil)
-					if r.X == "fld:config.BackendConfig.Weight" && r.Y == "" && r.Pred == "" && r.Lo == negInf && r.Hi == 0 {
-						guard = true
-					}
-				}
-			})
-			ok = hasOne && hasCfg && guard
-			if !ok {
-				detail = fmt.Sprintf("weight is not clamped by `weight < 1 → 1` (default edge %v, configured edge %v, guard %v)", hasOne, hasCfg, guard)
-			}
-		} else if wv != nil {
-			detail = "configured weight is stored unclamped: " + p.Desc(wv, nil) + " (a weight of 0 makes smooth WRR never pick the backend)"
-		}
+		ok, detail := c.weightClamped(ab, wv, 0)
 		c.Check(ok, "weight-clamp", construct, p.Pos(ab.Pos()), "Weight = (cfg.Weight ≤ 0 ? 1 : cfg.Weight)", detail)
 	}
 }
@@ -855,4 +838,156 @@ func (c *Ctx) sameSlice(fn *ssa.Function, a, b ssa.Value) bool {
 func isLocalCallResult(v ssa.Value) bool {
 	_, ok := stripConv(v).(*ssa.Call)
 	return ok
+}
+
+// weightClamped: v equals the configured weight when that is ≥ 1 and 1 otherwise — written as a φ
+// behind a `weight < 1` guard, or computed by a helper that does the same with returns.
+func (c *Ctx) weightClamped(fn *ssa.Function, v ssa.Value, depth int) (bool, string) {
+	p := c.P
+	const cfgW = "fld:config.BackendConfig.Weight"
+	if v == nil {
+		return false, "Backend.Weight is not set from the configured weight"
+	}
+	v = stripConv(v)
+	// the guard `configured weight ≤ 0` and the successor taken when it holds
+	var lowEdge []*ssa.BasicBlock
+	instrsOf(fn, func(in ssa.Instruction) {
+		if ifi, isIf := in.(*ssa.If); isIf {
+			r := p.RelOf(ifi.Cond, true, nil)
+			if r.X != cfgW || r.Y != "" || r.Pred != "" || r.Neq {
+				return
+			}
+			switch {
+			case r.Lo == negInf && r.Hi == 0: // w ≤ 0  (w < 1)
+				lowEdge = append(lowEdge, ifi.Block().Succs[0])
+			case r.Lo == 1 && r.Hi == posInf: // w ≥ 1  (w > 0)
+				lowEdge = append(lowEdge, ifi.Block().Succs[1])
+			}
+		}
+	})
+	if ph, isPhi := v.(*ssa.Phi); isPhi {
+		hasOne, hasCfg := false, false
+		for _, e := range ph.Edges {
+			if k, isK := constInt(e); isK && k == 1 {
+				hasOne = true
+			}
+			if p.Desc(e, nil) == cfgW {
+				hasCfg = true
+			}
+		}
+		if hasOne && hasCfg && len(lowEdge) > 0 {
+			return true, ""
+		}
+		return false, fmt.Sprintf("weight is not clamped by `weight < 1 → 1` (default edge %v, configured edge %v, guard %v)", hasOne, hasCfg, len(lowEdge) > 0)
+	}
+	if call, isCall := v.(*ssa.Call); isCall && depth < 3 {
+		if h := StaticFn(call); h != nil && p.IsHelios(h) && h.Blocks != nil && h.Signature.Results().Len() == 1 {
+			okAll, n := true, 0
+			why := ""
+			instrsOf(h, func(in ssa.Instruction) {
+				r, isRet := in.(*ssa.Return)
+				if !isRet || len(r.Results) != 1 {
+					return
+				}
+				n++
+				res := stripConv(r.Results[0])
+				if _, isPhi := res.(*ssa.Phi); isPhi {
+					if ok, w := c.weightClamped(h, res, depth+1); !ok {
+						okAll, why = false, w
+					}
+					return
+				}
+				// evaluate the guard inside the helper
+				ok2, w := c.weightReturn(h, r, res)
+				if !ok2 {
+					okAll, why = false, w
+				}
+			})
+			if n > 0 && okAll {
+				return true, ""
+			}
+			if why == "" {
+				why = "the helper computing the weight does not clamp it"
+			}
+			return false, why
+		}
+	}
+	return false, "configured weight is stored unclamped: " + p.Desc(v, nil) + " (a weight of 0 makes smooth WRR never pick the backend)"
+}
+
+// weightReturn: inside a clamp helper, `return 1` lies on the weight ≤ 0 edge and `return weight` off it.
+func (c *Ctx) weightReturn(h *ssa.Function, r *ssa.Return, res ssa.Value) (bool, string) {
+	p := c.P
+	const cfgW = "fld:config.BackendConfig.Weight"
+	var low []*ssa.BasicBlock
+	instrsOf(h, func(in ssa.Instruction) {
+		if ifi, isIf := in.(*ssa.If); isIf {
+			rel := p.RelOf(ifi.Cond, true, nil)
+			if rel.X != cfgW || rel.Y != "" || rel.Pred != "" || rel.Neq {
+				return
+			}
+			switch {
+			case rel.Lo == negInf && rel.Hi == 0:
+				low = append(low, ifi.Block().Succs[0])
+			case rel.Lo == 1 && rel.Hi == posInf:
+				low = append(low, ifi.Block().Succs[1])
+			}
+		}
+	})
+	onLow := false
+	for _, e := range low {
+		if len(e.Preds) == 1 && e.Dominates(r.Block()) {
+			onLow = true
+		}
+	}
+	if k, isK := constInt(res); isK {
+		if k == 1 && onLow {
+			return true, ""
+		}
+		return false, "the weight helper returns a constant that is not the default 1 behind a `weight < 1` guard"
+	}
+	if p.Desc(res, nil) == cfgW {
+		if !onLow && len(low) > 0 {
+			return true, ""
+		}
+		return false, "the weight helper returns the configured weight without having excluded weight < 1"
+	}
+	return false, "the weight helper returns something other than the configured weight or the default 1: " + p.Desc(res, nil)
+}
+
+// transportAllocs resolves a value stored as a proxy's Transport to the http.Transport literal(s) it
+// can be, looking through conversions, φs and helpers that build the transport.
+func (c *Ctx) transportAllocs(v ssa.Value, depth int, out *[]*ssa.Alloc) {
+	p := c.P
+	if v == nil || depth > 4 {
+		return
+	}
+	switch x := v.(type) {
+	case *ssa.Alloc:
+		if QualType(namedOf(x.Type())) == "http.Transport" {
+			*out = append(*out, x)
+		}
+	case *ssa.MakeInterface:
+		c.transportAllocs(x.X, depth+1, out)
+	case *ssa.ChangeType:
+		c.transportAllocs(x.X, depth+1, out)
+	case *ssa.ChangeInterface:
+		c.transportAllocs(x.X, depth+1, out)
+	case *ssa.Phi:
+		for _, e := range x.Edges {
+			c.transportAllocs(e, depth+1, out)
+		}
+	case *ssa.Call:
+		if h := StaticFn(x); h != nil && p.IsHelios(h) && h.Blocks != nil {
+			instrsOf(h, func(in ssa.Instruction) {
+				if r, ok := in.(*ssa.Return); ok {
+					for _, rv := range r.Results {
+						c.transportAllocs(rv, depth+1, out)
+					}
+				}
+			})
+		}
+	case *ssa.Extract:
+		c.transportAllocs(x.Tuple, depth+1, out)
+	}
 }
